@@ -1,6 +1,6 @@
 //! Deterministic scheduler over the cfg(nucleo_verif) yield points: every participating thread parks
 //! at each yield point until the controller lets it run to the next one.
-use std::cell::RefCell;
+use std::cell::{Cell, RefCell};
 use std::sync::{Arc, Condvar, Mutex};
 use std::time::Duration;
 
@@ -12,13 +12,23 @@ pub enum St {
     Finished(String),           // returned (result rendered) or panicked ("PANIC")
 }
 
+/// decides per (site, argument) whether the thread parks there (evaluated on the thread itself)
+pub type Filter = Arc<dyn Fn(&'static str, u64) -> bool + Send + Sync>;
+
 pub struct Ctl {
     pub st: Mutex<(St, bool)>, // (state, go flag)
     pub cv: Condvar,
     pub ignore: Vec<&'static str>,
+    pub filter: Option<Filter>,
 }
 
 thread_local! { static CTL: RefCell<Option<Arc<Ctl>>> = RefCell::new(None); }
+thread_local! { static RESERVED: Cell<Option<u64>> = Cell::new(None); }
+
+/// first index this thread's push / extend has reserved (argument of push.reserved / extend.reserved), if it got there
+pub fn reserved() -> Option<u64> {
+    RESERVED.with(|r| r.get())
+}
 static GLOBAL_CTL: Mutex<Option<Arc<Ctl>>> = Mutex::new(None);
 
 /// controller used by unregistered threads (the pool thread executing Worker::run) at `run.*` sites
@@ -26,11 +36,14 @@ pub fn set_global(ctl: Option<Arc<Ctl>>) {
     *GLOBAL_CTL.lock().unwrap() = ctl;
 }
 pub fn new_ctl(ignore: Vec<&'static str>) -> Arc<Ctl> {
-    Arc::new(Ctl { st: Mutex::new((St::Running, false)), cv: Condvar::new(), ignore })
+    Arc::new(Ctl { st: Mutex::new((St::Running, false)), cv: Condvar::new(), ignore, filter: None })
 }
 
 pub fn install_hook() {
     nucleo::verif::set_hook(Some(Arc::new(|site, arg| {
+        if site == "push.reserved" || site == "extend.reserved" {
+            RESERVED.with(|r| r.set(Some(arg)));
+        }
         let mut ctl = CTL.with(|c| c.borrow().clone());
         if ctl.is_none() && site.starts_with("run.") {
             ctl = GLOBAL_CTL.lock().unwrap().clone();
@@ -38,6 +51,11 @@ pub fn install_hook() {
         if let Some(ctl) = ctl {
             if ctl.ignore.iter().any(|s| *s == site) {
                 return;
+            }
+            if let Some(f) = &ctl.filter {
+                if !f(site, arg) {
+                    return;
+                }
             }
             let mut g = ctl.st.lock().unwrap();
             g.0 = St::Parked(site, arg);
@@ -58,7 +76,12 @@ pub struct Thread {
 
 /// spawn a controlled thread; it waits at its start gate until the first `step`
 pub fn spawn(ignore: Vec<&'static str>, body: impl FnOnce() -> String + Send + 'static) -> Thread {
-    let ctl = Arc::new(Ctl { st: Mutex::new((St::Gate, false)), cv: Condvar::new(), ignore });
+    spawn_filtered(ignore, None, body)
+}
+
+/// like `spawn`; the thread parks only at the sites the filter accepts
+pub fn spawn_filtered(ignore: Vec<&'static str>, filter: Option<Filter>, body: impl FnOnce() -> String + Send + 'static) -> Thread {
+    let ctl = Arc::new(Ctl { st: Mutex::new((St::Gate, false)), cv: Condvar::new(), ignore, filter });
     let c2 = ctl.clone();
     let handle = std::thread::spawn(move || {
         CTL.with(|c| *c.borrow_mut() = Some(c2.clone()));
